@@ -47,6 +47,7 @@ void sym_assume_cmp(double a, int op, double b)
 void sym_check_cmp(double a, int op, double b, const char* label)
 {
     ++checks;
+    printf("OUT %s %a %a\n", label, a, b);
     if (!symc::concrete_holds(a, op, b, 1e-6))
     {
         ++violations;
@@ -56,6 +57,7 @@ void sym_check_cmp(double a, int op, double b, const char* label)
 void sym_close(double a, double b, double rel, const char* label)
 {
     ++checks;
+    printf("OUT %s %a %a\n", label, a, b);
     const bool ok = (a != a && b != b) || std::fabs(a - b) <= std::max(rel, 1e-6) * (1 + std::fabs(a) + std::fabs(b));
     if (!ok)
     {
